@@ -238,7 +238,11 @@ class Rule_ST04(BaseRule):
                 prior_newline = True
                 prior_whitespace = ""
             elif not prior_newline and seg.is_comment:
-                buff += [WhitespaceSegment(prior_whitespace), seg]
+                # NOTE: Only restore whitespace if there was some. An empty
+                # whitespace segment is not a valid edit.
+                if prior_whitespace:
+                    buff.append(WhitespaceSegment(prior_whitespace))
+                buff.append(seg)
                 prior_newline = False
                 prior_whitespace = ""
             elif seg.is_whitespace:
